@@ -78,7 +78,7 @@ impl<T: crate::EventSource> TransientSourceState<T> {
         ensures r == (self.st() is None),
 //@ enditem
 //@ item src/sources/transient.rs / impl TransientSource<T> / fn remove props=C18
-//@ rw R1 1 <<replace_state(TransientSourceState::Remove)>> => <<replace_state(|x: T| -> (r: TransientSourceState<T>) ensures r == TransientSourceState::Remove(x) { TransientSourceState::Remove(x) })>>
+//@ rw R1 * <<replace_state(TransientSourceState::Remove)>> => <<replace_state(|x: T| -> (r: TransientSourceState<T>) ensures r == TransientSourceState::Remove(x) { TransientSourceState::Remove(x) })>>
 //@ spec
         // documented: calling this while a replacement is pending drops (leaks) the old source
         requires old(self).st() matches TransientSourceState::Replace { new, old } ==> droppable(old),
@@ -173,14 +173,14 @@ impl<T: crate::EventSource> TransientSourceState<T> {
 //@ rw R8 1 <<process_events<F>>> => <<process_events<CbF>>>
 //@ rw R8 1 <<callback: F,>> => <<callback: CbF,>>
 //@ rw R8 1 <<F: FnMut(Self::Event>> => <<CbF: FnMut(Self::Event>>
-//@ rw R1 1 <<replace_state(TransientSourceState::Disable)>> => <<replace_state(|x: T| -> (r: TransientSourceState<T>) ensures r == TransientSourceState::Disable(x) { TransientSourceState::Disable(x) })>>
-//@ rw R1 1 <<replace_state(TransientSourceState::Remove)>> => <<replace_state(|x: T| -> (r: TransientSourceState<T>) ensures r == TransientSourceState::Remove(x) { TransientSourceState::Remove(x) })>>
+//@ rw R1 * <<replace_state(TransientSourceState::Disable)>> => <<replace_state(|x: T| -> (r: TransientSourceState<T>) ensures r == TransientSourceState::Disable(x) { TransientSourceState::Disable(x) })>>
+//@ rw R1 * <<replace_state(TransientSourceState::Remove)>> => <<replace_state(|x: T| -> (r: TransientSourceState<T>) ensures r == TransientSourceState::Remove(x) { TransientSourceState::Remove(x) })>>
 //@ entry
         proof { broadcast use axiom_droppable; }
 //@ enditem
 //@ item src/sources/transient.rs / impl crate::EventSource for TransientSource<T> / fn register props=C18 ret=r splitarms
-//@ rw R1 1 <<replace_state(TransientSourceState::Keep)>> => <<replace_state(|x: T| -> (r: TransientSourceState<T>) ensures r == TransientSourceState::Keep(x) { TransientSourceState::Keep(x) })>>
-//@ rw R2 1 <<|_| TransientSourceState::None>> => <<|_x: T| -> (r: TransientSourceState<T>) requires droppable(_x) ensures r is None { TransientSourceState::None }>>
+//@ rw R1 * <<replace_state(TransientSourceState::Keep)>> => <<replace_state(|x: T| -> (r: TransientSourceState<T>) ensures r == TransientSourceState::Keep(x) { TransientSourceState::Keep(x) })>>
+//@ rw R2 * <<|_| TransientSourceState::None>> => <<|_x: T| -> (r: TransientSourceState<T>) requires droppable(_x) ensures r is None { TransientSourceState::None }>>
 //@ entry
         proof { broadcast use axiom_droppable; }
 //@ enditem
@@ -189,14 +189,14 @@ impl<T: crate::EventSource> TransientSourceState<T> {
         ensures
             // F6a (known finding): a disabled child is unregistered here but the state does not record it
             old(self).st() is Disable ==> final(self).st().inv(true),
-//@ rw R1 2 <<replace_state(TransientSourceState::Keep)>> => <<replace_state(|x: T| -> (r: TransientSourceState<T>) ensures r == TransientSourceState::Keep(x) { TransientSourceState::Keep(x) })>>
-//@ rw R2 1 <<|_| TransientSourceState::None>> => <<|_x: T| -> (r: TransientSourceState<T>) requires droppable(_x) ensures r is None { TransientSourceState::None }>>
+//@ rw R1 * <<replace_state(TransientSourceState::Keep)>> => <<replace_state(|x: T| -> (r: TransientSourceState<T>) ensures r == TransientSourceState::Keep(x) { TransientSourceState::Keep(x) })>>
+//@ rw R2 * <<|_| TransientSourceState::None>> => <<|_x: T| -> (r: TransientSourceState<T>) requires droppable(_x) ensures r is None { TransientSourceState::None }>>
 //@ entry
         proof { broadcast use axiom_droppable; }
 //@ enditem
 //@ item src/sources/transient.rs / impl crate::EventSource for TransientSource<T> / fn unregister props=C18 ret=r splitarms
-//@ rw R1 1 <<replace_state(TransientSourceState::Register)>> => <<replace_state(|x: T| -> (r: TransientSourceState<T>) ensures r == TransientSourceState::Register(x) { TransientSourceState::Register(x) })>>
-//@ rw R2 1 <<|_| TransientSourceState::None>> => <<|_x: T| -> (r: TransientSourceState<T>) requires droppable(_x) ensures r is None { TransientSourceState::None }>>
+//@ rw R1 * <<replace_state(TransientSourceState::Register)>> => <<replace_state(|x: T| -> (r: TransientSourceState<T>) ensures r == TransientSourceState::Register(x) { TransientSourceState::Register(x) })>>
+//@ rw R2 * <<|_| TransientSourceState::None>> => <<|_x: T| -> (r: TransientSourceState<T>) requires droppable(_x) ensures r is None { TransientSourceState::None }>>
 //@ entry
         proof { broadcast use axiom_droppable; }
 //@ enditem
